@@ -7,10 +7,13 @@
       `normPath_contained`);
     - missing parent directories are created; a parent that is a regular file
       makes the member (and the extraction) fail;
-    - a directory member over an existing directory changes nothing;
+    - a directory member over an existing name changes nothing (over a
+      directory there is nothing to do; over a regular file mkdir fails and the
+      extraction goes on, as pax does);
     - a regular file over an existing regular file replaces its content;
-    - anything else (file over directory, directory over file, links, special
-      files) is outside this reference: `extract` answers `none`.
+    - a regular file over a directory fails, and so does the extraction;
+    - links and special files are outside this reference: `extract` answers
+      `none`.
 
   Core Lean only.
 -/
@@ -51,8 +54,7 @@ def xInsert (t : XTree) (m : Member) : Option XTree :=
   match m.kind with
   | .dir =>
     match alGet t n with
-    | some .dir => some t
-    | some (.file _) => none
+    | some _ => some t
     | none => xMkdirs t (prefixesOf n)
   | .reg =>
     if n = dotP then none
